@@ -3,7 +3,7 @@ PROP = {'assumptions': ['Redis PTTL replies are canonical decimal i64 (-2 missin
                  "RESTORE reads ttl 0 as 'no expiry'",
                  'btoi 0.4.2 grammar as transliterated in UmModel/Bytes.lean (differentially checked on '
                  'every run)'],
- 'gaps': ['the pull path (get_data_entry + gen_restore_resp) is modelled (pullTransfer) and proved but its real code is only exercised through pttl_to_restore_expire_time, not end-to-end (the C03 migration harness drives it)'],
+ 'gaps': ['the scan loop (produce_entries on SCAN batches) is exercised through the UMSYNC path which shares produce_entries/forward_entries; key expiry firing during a migration is outside the model'],
  'gen_modules': ['Consts'],
  'module': 'UmProps.C19',
  'streams': [{'driver': 'ttl', 'harness': 'umh_ttl', 'name': 'ttl'}]}
